@@ -18,7 +18,8 @@ Record BInv (s : bstate) : Prop := mkBInv {
   b_last : bsome (last s) = true -> bcount s = 0 /\ bclosed s = false /\ bn s >= 1;
   b_closed : bclosed s = true -> bcount s = 0;
   b_rest : created s = true -> bcount s = 0 -> bclosed s = true \/ bsome (last s) = true \/ bn s = 0;
-  b_chan : chlen s + brecvd s = bsends s
+  b_chan : chlen s + brecvd s = bsends s;
+  b_cap : bn s <= bcap s
 }.
 
 Lemma binit_inv : BInv binit.
@@ -34,6 +35,8 @@ Ltac bbools :=
          | H : Nat.leb _ _ = true |- _ => apply Nat.leb_le in H
          | H : Nat.ltb _ _ = true |- _ => apply Nat.ltb_lt in H
          | H : negb _ = true |- _ => apply negb_true_iff in H
+         | H : negb _ = false |- _ => apply negb_false_iff in H
+         | H : _ || _ = false |- _ => apply orb_false_elim in H; destruct H
          | H : Bool.eqb _ _ = true |- _ => apply Bool.eqb_prop in H
          | H : bopt_is ?o _ = true |- _ => destruct o; cbn in H; [apply Nat.eqb_eq in H; subst | discriminate H]
          end.
@@ -46,7 +49,7 @@ Ltac bdestr H :=
   try (inversion H; subst; clear H).
 
 Ltac bexpose s :=
-  destruct s as [n0 cr0 cnt0 wg0 owe0 ch0 cl0 last0 clo0 snd0 don0 rcv0]; cbn in *.
+  destruct s as [n0 cr0 cnt0 wg0 owe0 ch0 cl0 last0 clo0 snd0 don0 rcv0 cap0]; cbn in *.
 
 Ltac bspec :=
   repeat match goal with
@@ -120,6 +123,18 @@ Proof.
   intros R C Z L N. apply breachable_inv in R. destruct (b_rest s R C Z) as [H|[H|H]]; auto.
   - rewrite L in H. discriminate.
   - lia.
+Qed.
+
+(* an item that has not sent its outcome yet finds a free slot in the stream, whether or not
+   anybody reads: the stream has one slot per item (so a batch runs to completion unread) *)
+Theorem send_never_blocks s : BReachable s -> bsends s < bn s -> chlen s < bcap s.
+Proof. intros R H. apply breachable_inv in R. pose proof (b_chan s R). pose proof (b_cap s R). lia. Qed.
+
+Theorem stream_has_a_slot_per_item s n c s' : bstep s (BNew n c) = Some s' -> n <= c /\ bcap s' = c /\ bn s' = n.
+Proof.
+  cbn. destruct (created s || negb (Nat.leb n c)) eqn:E; [discriminate|].
+  apply orb_false_elim in E. destruct E as [_ E]. apply negb_false_iff, Nat.leb_le in E.
+  intros H. inversion H; subst. cbn. auto.
 Qed.
 
 (* what readers receive was sent: received + buffered = sent *)
